@@ -255,20 +255,17 @@ func checkC01(c *core.Ctx, rc *rtCase, file []byte) {
 		a, e1 := refavro.ReadContainer(file)
 		b, e2 := refavro.ReadContainer(buf.Bytes())
 		if e1 == nil && e2 == nil {
-			if string(a.SchemaJSON) != string(b.SchemaJSON) || len(a.Blocks) != len(b.Blocks) {
-				c.Violate("twin", fmt.Sprintf("Encoder[T] and the twin pipeline differ in schema or block structure (%d vs %d blocks)", len(a.Blocks), len(b.Blocks)), rc.replay(file))
+			// the twin exists for type reach only: schema and record data must agree; block
+			// partition is C09's business and is deliberately not compared here
+			ra, rb := a.AllRecords(), b.AllRecords()
+			if string(a.SchemaJSON) != string(b.SchemaJSON) || len(ra) != len(rb) {
+				c.Violate("twin", fmt.Sprintf("Encoder[T] and the twin pipeline differ in schema or record count (%d vs %d)", len(ra), len(rb)), rc.replay(file))
 				return
 			}
-			for bi := range a.Blocks {
-				if a.Blocks[bi].Count != b.Blocks[bi].Count {
-					c.Violate("twin", "block counts differ between Encoder[T] and twin", rc.replay(file))
+			for ri := range ra {
+				if refavro.Render(ra[ri]) != refavro.Render(rb[ri]) {
+					c.Violate("twin", "record datums differ between Encoder[T] and twin", rc.replay(file))
 					return
-				}
-				for ri := range a.Blocks[bi].Records {
-					if refavro.Render(a.Blocks[bi].Records[ri]) != refavro.Render(b.Blocks[bi].Records[ri]) {
-						c.Violate("twin", "record datums differ between Encoder[T] and twin", rc.replay(file))
-						return
-					}
 				}
 			}
 			c.Count("twin-agreements", 1)
